@@ -897,4 +897,15 @@ def convInit (hNdim inNdim : Nat) (mode : String) (hdt xdt : DT) : Option DT :=
   else if mode ≠ "full" ∧ mode ≠ "valid" ∧ mode ≠ "same" then none
   else some (resultType xdt hdt)
 
+
+/-! ## Filters longer than an axis in N dimensions: `fftn(h, s=dims)` crops them -/
+
+/-- shape of the filter after `fftn(h, s=dims)` cropped it: `min` axis by axis -/
+def minShape : List Nat → List Nat → List Nat
+  | k :: ks, n :: ds => min k n :: minShape ks ds
+  | _, _ => []
+
+/-- the cropped filter `h[:n_0, :n_1, …]`, flat over `minShape ks dims` -/
+def cropFilter {α : Type} (ks dims : List Nat) (h : V α) : V α := fun q => h (embedIdx (minShape ks dims) ks q)
+
 end Scico.LinOps
